@@ -173,7 +173,7 @@ PROPS = {
                   "Orbit.C12.later_valid_messages_handled", "Orbit.C12.listener_loop_handles_every_message", "Orbit.C12.a_loop_that_left_on_error_would_drop_later_messages", "Orbit.C12.no_length_prefix_panics",
                   "Orbit.C12.frame_guard_tied_to_go_text", "Orbit.C12.pinned_tree_panics",
                   "Orbit.C12.null_batch_members_never_panic", "Orbit.C12.batch_accessor_tied_to_go_text", "Orbit.C12.null_batch_member_crashed_the_index_before_the_fix", "Orbit.C12.entries_that_are_not_operations_change_nothing", "Orbit.C12.event_log_windows_skip_what_is_not_an_operation_tied_to_go_text",
-                  "Orbit.C12.event_log_lists_the_operations_around_any_bound", "Orbit.C12.event_log_never_lists_what_is_not_an_operation", "Orbit.C12.event_log_of_operations_only_lists_as_before"],
+                  "Orbit.C12.event_log_lists_the_operations_around_any_bound", "Orbit.C12.event_log_never_lists_what_is_not_an_operation", "Orbit.C12.event_log_of_operations_only_lists_as_before", "Orbit.C12.get_answers_for_the_entry_asked_for", "Orbit.C12.get_test_tied_to_go_text"],
         families=[("garbage", 120, 4000, 10), ("transport", 40, 1500, 6)],
         corr_fields={"values", "heads", "idx", "len", "loadq", "rev", "result"},
         nontrivial=lambda lines: sum(1 for l in lines if l.startswith("op garbage") and "kind=valid" not in l) >= 2,
@@ -212,9 +212,9 @@ PROPS = {
         theorems=["Orbit.C14.address_root_is_the_manifest", "Orbit.C14.different_inputs_different_addresses",
                   "Orbit.C14.printed_address_parses_back", "Orbit.C14.accepted_names", "Orbit.C14.create_over_existing_is_refused",
                   "Orbit.C14.local_only_open_of_unknown_is_refused", "Orbit.C14.open_yields_recorded_type_and_write_list",
-                  "Orbit.C14.create_then_open_anywhere", "Orbit.C14.create_address_is_determined_by_inputs", "Orbit.C14.pinned_tree_answered_a_foreign_address", "Orbit.C14.accepted_address_prints_as_the_same_database", "Orbit.C14.climbing_address_was_opened_as_another_database_before_the_fix", "Orbit.C14.misnamed_address_is_refused", "Orbit.C14.created_address_is_named", "Orbit.C14.opened_database_exists_locally"],
+                  "Orbit.C14.create_then_open_anywhere", "Orbit.C14.create_address_is_determined_by_inputs", "Orbit.C14.pinned_tree_answered_a_foreign_address", "Orbit.C14.accepted_address_prints_as_the_same_database", "Orbit.C14.climbing_address_was_opened_as_another_database_before_the_fix", "Orbit.C14.misnamed_address_is_refused", "Orbit.C14.created_address_is_named", "Orbit.C14.opened_database_exists_locally", "Orbit.C14.default_writer_is_the_creator_whatever_the_value_was_used_for", "Orbit.C14.shared_parameters_leaked_the_first_creator_before_the_fix"],
         families=[("address", 80, 2500, 10)],
-        corr_fields={"values", "idx", "create", "open", "addr", "pathjoin"},
+        corr_fields={"values", "idx", "create", "open", "addr", "pathjoin", "reuseac"},
         nontrivial=lambda lines: sum(1 for l in lines if l.startswith(("detaddr ", "created ", "opened ", "parsed "))) >= 3,
         rule="names drawn from plain, nested, unicode, empty, dotted, climbing (../x, a/../../b), absolute and address-like strings x 3 store types x write lists (own id, several ids, wildcard, empty); DetermineAddress on 2-3 peers, Create with and without overwrite, Open by address on other peers (plain and local-only), print/parse of every address: equal inputs must give equal addresses on every peer, distinct inputs distinct roots, refused exactly when the model refuses, type and write list as created; non-trivial = >= 3 address operations",
         trusted_base=["the manifest CID is an injective function of (name, type, access-controller address) — sha2-256 + dag-cbor, parameter H of the theorem", "Go path.Join/Clean modelled on segment lists (Model/Path.lean), compared on every generated name"],
@@ -290,7 +290,7 @@ MANIFEST_TEXT = {
         note="Trusted: Lean kernel + standard axioms; the JSON codec of one entry is a parameter with a left inverse (sampled by the harness); the unixfs file layer is a fake that stores files whole; the fetcher's contract (it returns the ancestry of the heads it is given, from blocks the node holds) is a hypothesis of the fetching-loader theorems - a snapshot is NOT self-contained in this port: a node without the blocks needs the network to load it.",
         technique="Lean 4 proof (codec round-trip by induction; rebuilt log joins to the same entries/order/heads) with differential correspondence on real save/load"),
     "C14": dict(
-        text="Kernel-checked theorems over a segment-list model of Go's path.Join/Clean: the address answered names the manifest the inputs were hashed into; with an injective manifest hash different (name, type, access controller) give different addresses; every answered address prints and parses back to itself; the accepted names are characterised exactly; over a model of Create/Open written in the order of the Go code: creating over an existing local database is refused unless overwrite, a local-only open of an unknown database is refused, an open yields the recorded type and write list whatever options are passed, and what Create returned is what every later Open returns on this and on any other instance. The pinned tree answered another database's address for a climbing name (decide-checked witness, replayed on the real code before the fix: commit). Whatever string Open accepts as an address prints as an address of the same database (address.Parse refuses a path that climbs out of its root: finding F28, fix: commit, with a decide-checked witness of the old split). The address family compares DetermineAddress/Create/Open/Parse on 2-3 real peers with the model over adversarial names, store types, write lists and user-supplied address spellings. Behind the hash of a manifest only the name recorded in it opens (Open model with the name test: a misnamed address is refused whatever the options, the address Create returns always passes; finding F52, fix: commit - any path behind a manifest hash opened as a database of its own; the driver requires the address of every opened store to be the address its root's manifest was created for). A database obtained through Open exists locally from then on (proved on the Open model: a later local-only Open succeeds with the same type and write list; finding F53, fix: commit - only Create used to record it), and Create/Open no longer write into the caller's options (finding F54, fix: commit - 'open or create' left Overwrite=true behind; `reuseopts` step in the address family; F59, fix: commit - DetermineAddress and the typed front ends still did: one access controller parameters value handed to two peers gave the second database the first peer's id as its default writer, and options that had been through Log() made a plain Open create; `reuseac`, `reusefront` steps; F68, fix: commit - the copy is made only of the library's own parameters type: parameters of a type of the application reach their access controller as they are; reviewer's test).",
+        text="Kernel-checked theorems over a segment-list model of Go's path.Join/Clean: the address answered names the manifest the inputs were hashed into; with an injective manifest hash different (name, type, access controller) give different addresses; every answered address prints and parses back to itself; the accepted names are characterised exactly; over a model of Create/Open written in the order of the Go code: creating over an existing local database is refused unless overwrite, a local-only open of an unknown database is refused, an open yields the recorded type and write list whatever options are passed, and what Create returned is what every later Open returns on this and on any other instance. The pinned tree answered another database's address for a climbing name (decide-checked witness, replayed on the real code before the fix: commit). Whatever string Open accepts as an address prints as an address of the same database (address.Parse refuses a path that climbs out of its root: finding F28, fix: commit, with a decide-checked witness of the old split). The address family compares DetermineAddress/Create/Open/Parse on 2-3 real peers with the model over adversarial names, store types, write lists and user-supplied address spellings. Behind the hash of a manifest only the name recorded in it opens (Open model with the name test: a misnamed address is refused whatever the options, the address Create returns always passes; finding F52, fix: commit - any path behind a manifest hash opened as a database of its own; the driver requires the address of every opened store to be the address its root's manifest was created for). A database obtained through Open exists locally from then on (proved on the Open model: a later local-only Open succeeds with the same type and write list; finding F53, fix: commit - only Create used to record it), and Create/Open no longer write into the caller's options (finding F54, fix: commit - 'open or create' left Overwrite=true behind; `reuseopts` step in the address family; F59, fix: commit - DetermineAddress and the typed front ends still did: one access controller parameters value handed to two peers gave the second database the first peer's id as its default writer, and options that had been through Log() made a plain Open create; `reuseac`, `reusefront` steps; model Params: for every sequence of calls made with one parameters value each database gets its own creator as default writer - proved - and the driver computes the expected write list with it; decide-checked witness of the leak; F68, fix: commit - the copy is made only of the library's own parameters type: parameters of a type of the application reach their access controller as they are; reviewer's test).",
         note="Trusted: Lean kernel + standard axioms; injectivity of the manifest CID (hash + dag-cbor) is a hypothesis; the Create/Open model is hand-written (its abstractions are listed at the top of Model/OpenCreate.lean) and run against the real instance on every create/open of the address family; only the default ipfs access controller is modelled.",
         technique="Lean 4 proof (path cleaning lemmas, parse/print inverse, injectivity) with differential correspondence over adversarial names"),
     "C15": dict(
@@ -322,7 +322,7 @@ MANIFEST_TEXT = {
         note="Known finding K1 (listed, exhibited by the corpus on every run): a request racing with a still-unwinding pre-cancelled request can complete without the shared hash; the next request brings it. Known finding K2 (listed, exhibited by the corpus on every run): the liveness theorems assume that every fetch under a live context returns; a retried fetch of a block nobody serves does not, and while it hangs what later requests fetched stays in the replicator's buffer (kernel-checked on the model: no other move delivers it; replayed on the real replicator). Goroutine steps are modelled as atomic under the replicator mutex; timeouts are cancellations at a point.",
         technique="Lean 4 proof (inductive invariant over all schedules, potential-function termination) with hook/gate-driven differential harness"),
     "C12": dict(
-        text="Kernel-checked theorems from the decode result onward: no decoded message (any mix of null, empty, partial heads) makes Sync panic, only complete heads are loaded, the outcome for a message does not depend on what preceded it; no 64-bit length prefix makes the frame reader panic and accepted lengths are within the limit, with the guard regenerated from the Go text on every run. A PUTALL batch with `null` members (a validly signed entry any writer can publish) is indexed as the batch of its real members and never dereferenced (finding F25, fix: commit; accessor tied to the Go text). The pinned tree is refuted by decide-checked witnesses replayed on the real code before the fix: commits. The harness delivers structurally enumerated malformed messages on the topic and the direct channel and raw frames to the real stream handler; a panic kills the harness process and is attributed to the running scenario. An event log lists around an entry whose payload is not an operation (finding F48, fix: commit - every listing used to end, silently, at such an entry; the garbage family injects one into event logs and queries; the filter is regenerated from the Go text). The listing is proved to be exactly the operations on the asked side of the bound's POSITION, for every log and every bound, an operation or not (review of that repair, fix: commit - the first version filtered before it looked the bound up, so that a cursor on such an entry started the window at the first entry; query model and window predicate of the driver now take the whole log and which entries are operations). Get of an entry that is not an operation fails and says so (finding F69, fix: commit - it answered with the next operation of the log; `C12/get` predicate).",
+        text="Kernel-checked theorems from the decode result onward: no decoded message (any mix of null, empty, partial heads) makes Sync panic, only complete heads are loaded, the outcome for a message does not depend on what preceded it; no 64-bit length prefix makes the frame reader panic and accepted lengths are within the limit, with the guard regenerated from the Go text on every run. A PUTALL batch with `null` members (a validly signed entry any writer can publish) is indexed as the batch of its real members and never dereferenced (finding F25, fix: commit; accessor tied to the Go text). The pinned tree is refuted by decide-checked witnesses replayed on the real code before the fix: commits. The harness delivers structurally enumerated malformed messages on the topic and the direct channel and raw frames to the real stream handler; a panic kills the harness process and is attributed to the running scenario. An event log lists around an entry whose payload is not an operation (finding F48, fix: commit - every listing used to end, silently, at such an entry; the garbage family injects one into event logs and queries; the filter is regenerated from the Go text). The listing is proved to be exactly the operations on the asked side of the bound's POSITION, for every log and every bound, an operation or not (review of that repair, fix: commit - the first version filtered before it looked the bound up, so that a cursor on such an entry started the window at the first entry; query model and window predicate of the driver now take the whole log and which entries are operations). Get of an entry that is not an operation fails and says so (finding F69, fix: commit - it answered with the next operation of the log; proved on the query model: for such an entry the listing hands back ANOTHER entry, for an operation that entry itself; the test Get makes before it answers is regenerated from the Go text; `C12/get` predicate).",
         note="The bytes -> structure step of encoding/json / CBOR is observed, not modelled (partial there); trusted: Lean kernel + standard axioms, the extractor, the hand-written decode model validated by the garbage family.",
         technique="Lean 4 proof (total outcome functions with explicit panic; BitVec frame guard tied by translator) with crash-attributing differential harness"),
     "C20": dict(
